@@ -72,6 +72,14 @@ func init() {
 			add(map[string]interface{}{"op": "Gather", "shape": c.shape, "ishape": c.ishape, "default": false, "i32": k%2 == 0})
 		}
 		add(map[string]interface{}{"op": "Gather", "shape": []int{3, 2}, "ishape": []int{2}, "default": true, "i32": false})
+		// every operator on the other element types (the data movers have per-type code paths)
+		for _, dt := range []string{"float64", "int32", "uint8", "bool", "int64"} {
+			add(map[string]interface{}{"op": "Gather", "shape": []int{2, 3}, "ishape": []int{2}, "default": false, "i32": false, "dtype": dt})
+			add(map[string]interface{}{"op": "Transpose", "shape": []int{2, 3}, "dtype": dt})
+			add(map[string]interface{}{"op": "Concat", "shape": []int{2, 2}, "ta": 1, "ext": []int{1, 2}, "dtype": dt})
+			add(map[string]interface{}{"op": "Expand", "shape": []int{2, 1}, "n": 2, "dtype": dt})
+			add(map[string]interface{}{"op": "Slice", "shape": []int{3}, "n": 1, "axes": true, "steps": false, "extremes": false, "dtype": dt})
+		}
 		add(map[string]interface{}{"op": "Gather", "shape": []int{2, 2}, "ishape": []int{2, 2}, "default": true, "i32": true, "dtype": "float32"})
 		// Expand
 		// ((1,1), (1,1,1): one element, yet a higher rank than a short target)
